@@ -108,7 +108,7 @@ def stale (d : DS) (mode : String) (u old new : Nat) : DS × String :=
   else
     let d1 : DS := { d with seenU := u :: d.seenU }
     let d2 := applyOp (applyOp (applyOp d1 (.save u old)) (.sync ⟨false, false⟩ none)) (.save u new)
-    (d2, s!"ok begin=200 finish=200 primary={new}")
+    (d2, s!"ok begin=200 finish=200 primary={new} | {digest d2}")
 
 def model (d : DS) : List String → DS × String
   | ["reset"] => (DS.init, s!"ok {digest DS.init}")
@@ -154,7 +154,7 @@ def model (d : DS) : List String → DS × String
       let res := (List.range steps.length).map fun k =>
         let d' := applyOp d (.sync sem (some k))
         s!"{k}:{word (faultErr k steps)}:{digestStore "C" d' d'.st.cache}"
-      (d, s!"ok n={steps.length} {" ".intercalate res} | {digest d}")
+      (d, s!"ok n={steps.length} tr={String.ofList (steps.map letter)} {" ".intercalate res} | {digest d}")
     | none => (d, "bad-op")
   | ["outage", mode, u, pid] =>
     match u.toNat?, pid.toNat? with
@@ -199,11 +199,17 @@ def judge : List String → String
     match parseDigest p, parseDigest c with
     | some p, some c => if mirrors p c then "ok" else "viol cache-differs-from-primary"
     | _, _ => "bad-op"
-  | ["atomic", before, expected, got] =>
-    match parseDigest before, parseDigest expected, parseDigest got with
-    | some b, some e, some g =>
-      if g == b then "ok" else if g == e then "ok" else "viol cache-is-neither-previous-nor-new"
+  | ["atomic", before, p, got] =>
+    -- the predicate of `c15_sync_atomic`: previous content, or the mirror of the primary
+    match parseDigest before, parseDigest p, parseDigest got with
+    | some b, some p, some g =>
+      if g == b then "ok" else if mirrors p g then "ok" else "viol cache-is-neither-previous-nor-new"
     | _, _, _ => "bad-op"
+  | ["intact", p, c] =>
+    match parseDigest p, parseDigest c with
+    | some p, some c =>
+      if clean p.1 && clean p.2 && clean c.1 && clean c.2 then "ok" else "viol stored-row-corrupt"
+    | _, _ => "bad-op"
   | ["rt", v] => if v == "1" then "ok" else if v == "0" then "viol profile-not-read-back-identical" else "bad-op"
   | ["cl", v] =>
     match v.splitOn "/" with
